@@ -3,7 +3,9 @@ container properties C04-C07, with the full set of notification routes attached:
 
   * the legacy `<name>_items` handler (TraitListEvent / TraitDictEvent / TraitSetEvent) - it feeds the harness's event oracle,
   * a legacy whole-value handler (must stay silent for in-place operations),
-  * TWO observe handlers on `<name>:items` (List/Dict/SetChangeEvent built by the observation event factories).
+  * TWO observe handlers on `<name>:items` (List/Dict/SetChangeEvent built by the observation event factories), and a THIRD one
+    registered through a metadata filter (`+vt_tag:items`) before the trait has a value; the value is assigned twice (the second
+    time an equal container), so every observer has had to follow a re-assignment.
 
 The `extra` closure returned by every factory discharges the *mirror* obligations: every observe handler receives exactly
 one event per content-change notification, carrying the same delta; an event object that was delivered is not modified
@@ -61,14 +63,17 @@ def list_env_const_hash():
 class PyValidated(TraitType):
     """inner trait whose validate() is Python code, so proxies pass through CTrait.validate unharmed"""
 
-    def __init__(self, fn, **metadata):
+    def __init__(self, fn, plain=False, **metadata):
         self.fn = fn
+        self.plain = plain          # reject with a bare TraitError("message") (as hand-written trait types do) instead of error()
         super().__init__(**metadata)
 
     def validate(self, object, name, value):
         try:
             return self.fn(value)
         except TraitError:
+            if self.plain:
+                raise TraitError("not acceptable")
             self.error(object, name, value)
 
     def full_info(self, object, name, value):
@@ -84,20 +89,25 @@ def _owner_class(trait, falsy):
     return type("Owner", (HasTraits,), ns)
 
 
-def _make_owner(trait_factory, falsy, added, initial):
+def _make_owner(trait_factory, falsy, added, initial, pre=None):
     """the owner object with trait 'c' (declared on the class, or ADDED to the instance with add_trait), plus - for added traits -
     foreign twins whose own items listeners must stay silent: another object with an added 'c', and a second added trait 'c2' on
     the same object (dynamically added container traits must not share their items-event machinery)"""
     foreign = []
     if not added:
         o = _owner_class(trait_factory(), falsy)()
+        if pre:
+            pre(o)
         o.c = initial
+        o.c = type(initial)(initial)        # an EQUAL container assigned again: observers follow the new object all the same
         return o, foreign
     o = _owner_class(None, falsy)()
+    if pre:
+        pre(o)
     if added == "over":
         # the name held a container trait of ANOTHER kind before (its items-event trait must not survive the redefinition)
         prior = trait_factory()
-        o.add_trait("c", Dict(tt.Int, tt.Int) if isinstance(prior, (List, Set)) else List(tt.Int))
+        o.add_trait("c", Dict(tt.Int, tt.Int, vt_tag=True) if isinstance(prior, (List, Set)) else List(tt.Int, vt_tag=True))
         o.c = {1: 2} if isinstance(prior, (List, Set)) else [1]
         o.add_trait("c2", List(tt.Int) if isinstance(prior, (Dict, Set)) else Set(tt.Int))
     o.add_trait("c", trait_factory())
@@ -105,6 +115,7 @@ def _make_owner(trait_factory, falsy, added, initial):
     twin = _owner_class(None, falsy)()
     twin.add_trait("c", trait_factory())
     o.c = initial
+    o.c = type(initial)(initial)
     twin.c = type(initial)(initial)
     o.c2 = type(initial)(initial)
     twin.on_trait_change(lambda obj, name, old, new: foreign.append(("twin", name)), "c_items")
@@ -145,10 +156,13 @@ def _same_pairs(a, b):
 
 def list_factory(falsy=False, route="named", added=False):
     def factory(ex, items, validator, notifier):
-        o, foreign = _make_owner(lambda: List(PyValidated(validator)), falsy, added, list(items))
+        plain = len(items) <= 1 and ex.flag("validator_rejects_with_a_bare_TraitError")
+        seen = [[], [], []]
+        # a third observe handler, registered through a metadata filter BEFORE the trait has a value
+        pre = lambda o_: o_.observe(lambda e: seen[2].append((e.index, list(e.removed), list(e.added))), "+vt_tag:items")
+        o, foreign = _make_owner(lambda: List(PyValidated(validator, plain=plain), vt_tag=True), falsy, added, list(items), pre)
         other = []
         kept = []
-        seen = [[], []]
 
         def legacy(obj, name, old, new):
             kept.append((new, new.index, list(new.removed), list(new.added)))
@@ -189,10 +203,13 @@ def _same_index(a, b):
 
 def dict_factory(falsy=False, route="named", added=False):
     def factory(ex, keys, vals, kv, vv, notifier):
-        o, foreign = _make_owner(lambda: Dict(PyValidated(kv), PyValidated(vv)), falsy, added, dict(zip(keys, vals)))
+        plain = ex.flag("validator_rejects_with_a_bare_TraitError")
+        seen = [[], [], []]
+        pre = lambda o_: o_.observe(lambda e: seen[2].append((list(e.removed.items()), list(e.added.items()))), "+vt_tag:items")
+        o, foreign = _make_owner(lambda: Dict(PyValidated(kv, plain=plain), PyValidated(vv, plain=plain), vt_tag=True), falsy, added,
+                                 dict(zip(keys, vals)), pre)
         other = []
         kept = []
-        seen = [[], []]
 
         def legacy(obj, name, old, new):
             kept.append((new, list(new.removed.items()), list(new.added.items()), list(new.changed.items())))
@@ -227,10 +244,12 @@ def dict_factory(falsy=False, route="named", added=False):
 
 def set_factory(falsy=False, route="named", added=False):
     def factory(ex, elems, val, notifier):
-        o, foreign = _make_owner(lambda: Set(PyValidated(val)), falsy, added, set(elems))
+        plain = ex.flag("validator_rejects_with_a_bare_TraitError")
+        seen = [[], [], []]
+        pre = lambda o_: o_.observe(lambda e: seen[2].append((list(e.removed), list(e.added))), "+vt_tag:items")
+        o, foreign = _make_owner(lambda: Set(PyValidated(val, plain=plain), vt_tag=True), falsy, added, set(elems), pre)
         other = []
         kept = []
-        seen = [[], []]
 
         def legacy(obj, name, old, new):
             kept.append((new, list(new.removed), list(new.added)))
